@@ -127,8 +127,24 @@ func init() {
 						fs := alpha.VIdx(v)
 						f := fs[c.In("f", len(fs))]
 						in := ref.Vox{H: h, X: x, Y: y, V: v, F: f}
+						// the same query through ONE object that is re-used for every execution (parser-reuse pattern:
+						// ResetExtendedSpatialID, and the setters), which must give the same answer as a fresh object.
+						// The re-used object is also the LAST one queried by the previous execution, so two
+						// consecutive library calls see the same pointer with different contents.
+						reusedExt.ResetExtendedSpatialID(in.Ext())
+						gotR := transform.ConvertExtendedSpatialIDToSpatialIDs(reusedExt)
 						o, _ := object.NewExtendedSpatialID(in.Ext())
 						got := transform.ConvertExtendedSpatialIDToSpatialIDs(o)
+						reusedExt2.SetZoom(h, v)
+						reusedExt2.SetX(x)
+						reusedExt2.SetY(y)
+						reusedExt2.SetZ(f)
+						gotS := transform.ConvertExtendedSpatialIDToSpatialIDs(reusedExt2)
+						reusedExt.ResetExtendedSpatialID(in.Ext())
+						transform.ConvertExtendedSpatialIDToSpatialIDs(reusedExt)
+						if !eqStrs(sortedCopy(gotR), sortedCopy(got)) || !eqStrs(sortedCopy(gotS), sortedCopy(got)) {
+							c.Violation("C10:ConvertExtendedSpatialIDToSpatialIDs:re-used-object-gives-a-different-expansion", map[string]any{"id": in.Ext(), "fresh": head(got, 6), "reset": head(gotR, 6), "setters": head(gotS, 6)})
+						}
 						t := h
 						if v > t {
 							t = v
@@ -173,3 +189,8 @@ func eqStrs(a, b []string) bool {
 	}
 	return true
 }
+
+var (
+	reusedExt  = &object.ExtendedSpatialID{}
+	reusedExt2 = &object.ExtendedSpatialID{}
+)
